@@ -886,6 +886,9 @@ orc_parse_handle_opcode (OrcParser *parser, const OrcLine *line)
   if (error > 0) {
     orc_parse_add_error (parser, "bad operand \"%s\" in position %d",
             line->tokens[offset + error], error);
+  } else if (error < 0) {
+    orc_parse_add_error (parser, "cannot add instruction %s: %s",
+            line->tokens[offset], orc_program_get_error (parser->program));
   }
 
   return 1;
